@@ -172,6 +172,8 @@ func (c *rankCache) Add(id uint64, n uint64) {
 	// unless the count is 0, which is effectively used
 	// to clear the cache value.
 	if n < c.thresholdValue && n > 0 {
+		// not ranked any more: forget a previously cached (now stale) count
+		delete(c.entries, id)
 		return
 	}
 
@@ -185,6 +187,8 @@ func (c *rankCache) BulkAdd(id uint64, n uint64) {
 	c.mu.Lock()
 	defer c.mu.Unlock()
 	if n < c.thresholdValue {
+		// not ranked (any more): forget a previously cached (now stale) count
+		delete(c.entries, id)
 		return
 	}
 
